@@ -226,7 +226,11 @@ class SubclassJSONSerializer:
             raise ClassNotFoundError(class_name, module_name)
 
         if issubclass(target_cls, SubclassJSONSerializer):
-            return target_cls._from_json(data, **kwargs)
+            try:
+                return target_cls._from_json(data, **kwargs)
+            except NotImplementedError as exc:
+                # the serializer base class itself, or a subclass that does not implement _from_json
+                raise ClassNotDeserializableError(target_cls) from exc
 
         registered_json_deserializer = JSONSerializableTypeRegistry().get_deserializer(
             target_cls
